@@ -22,10 +22,10 @@ TReset == /\ Is("reset")
           /\ nextId' = NP + 1
           /\ sess' = [i \in SessIds |-> IF i <= NP THEN [epoch |-> 0, srv |-> "old", alive |-> TRUE, sstate |-> "def", pool |-> i] ELSE Blank]
           /\ s2c' = [i \in SessIds |-> <<>>] /\ c2s' = [i \in SessIds |-> <<>>]
-          /\ lstate' = "def" /\ lepoch' = 0 /\ ack' = 0 /\ hrCalls' = 0 /\ oldUp' = TRUE /\ newUp' = FALSE
+          /\ lstate' = "def" /\ lepoch' = 0 /\ ack' = 0 /\ hrCalls' = 0 /\ oldUp' = TRUE /\ newUp' = "no"
           /\ mstate' = "def" /\ mepoch' = 0 /\ cur' = [p \in Pools |-> p] /\ reserve' = [p \in Pools |-> NoSess] /\ closed' = "no"
           /\ wpc' = [p \in Pools |-> IF p \in SetOfSeq(E.t) THEN "pick" ELSE "watch"] /\ wsess' = [p \in Pools |-> p]
-          /\ tq' = <<>> /\ dies' = 0 /\ injs' = 0 /\ kf' = {} /\ idAtClose' = 0
+          /\ tq' = <<>> /\ dies' = 0 /\ injs' = 0 /\ kf' = {} /\ idAtClose' = 0 /\ gone' = {}
 
 \* ---- old listener
 TLBegin == /\ Is("LBegin")
@@ -52,14 +52,15 @@ TMTimeout == Is("MTimeout") /\ MTimeout
 TWPick == Is("WPick") /\ WPick(E.a + 1) /\ cur[E.a + 1] = E.s
 TWLost == Is("WLost") /\ WLost(E.a + 1) /\ ((E.b = 1) <=> (mstate = "hot"))
 TWSkip == Is("WSkip") /\ WRebuild(E.a + 1) /\ nextId' = nextId
-TWFail == Is("WFail") /\ Same /\ wpc[E.a + 1] = "sleep" /\ Connect = "none" /\ sess[cur[E.a + 1]].epoch = sess[wsess[E.a + 1]].epoch
+TWFail == /\ Is("WFail") /\ Connect = "none" /\ sess[cur[E.a + 1]].epoch = sess[wsess[E.a + 1]].epoch
+          /\ (WRetry(E.a + 1) \/ (Same /\ wpc[E.a + 1] = "retry"))
 TWConn == Is("WConn") /\ WRebuild(E.a + 1) /\ nextId' = nextId + 1 /\ E.s = nextId
 TWExit == Is("WExit") /\ WExit(E.a + 1)
 TSMClose == Is("SMClose") /\ SMClose
 TSMClosed == Is("SMClosed") /\ SMCloseFin
 \* ---- a client session is closed (by the peer's death, by the manager, by a fault)
 TSClose == /\ Is("SClose") /\ sess' = Kill({E.s})
-           /\ UNCHANGED <<nextId,s2c,c2s,lstate,lepoch,ack,hrCalls,oldUp,newUp,mstate,mepoch,cur,reserve,closed,wpc,wsess,tq,dies,injs,kf,idAtClose>>
+           /\ UNCHANGED <<nextId,s2c,c2s,lstate,lepoch,ack,hrCalls,oldUp,newUp,mstate,mepoch,cur,reserve,closed,wpc,wsess,tq,dies,injs,kf,idAtClose,gone>>
 
 \* once an execution has entered a listed known-finding class its remaining events are outside the claim: skipped
 TSkip == /\ l <= Len(Trace) /\ E.ev # "reset" /\ ~NotPruned /\ l' = l + 1 /\ Same
